@@ -604,6 +604,13 @@ class ScriptedSim(mosaik_api_v3.Simulator):
     def finalize(self):
         if self.ctl is not None and self.ctl.mode != "off":
             self.ctl.trace.append(("finalize", self.sid))
+        f = (self.spec or {}).get("fault") if hasattr(self, "spec") else None
+        if f and f.get("req") == "finalize":
+            # the simulator fails at the very last point of a run: in its finalize()
+            if self.ctl is not None:
+                self.ctl.ev("fault", self.sid, "finalize", f["kind"], "finalize")
+                self.ctl.fault_fired = (self.sid, "finalize", f["kind"], "finalize")
+            raise InjectedFault(f"injected failure in finalize() of {self.sid}")
 
 
 class ScriptedSimSync(ScriptedSim):
